@@ -12,8 +12,16 @@ variable {x : ClsX}
 /-- the connection classes that use `DBAPI.createTable` (Firebird and MaxDB add a generator / sequence statement) -/
 def plainConn (d : Dialect) : Prop := d ≠ .firebird ∧ d ≠ .maxdb
 
-/-- `conn.createTable(soClass)`: the CREATE TABLE statement; returns the constraint statements -/
-theorem connCreateTable (n : Nat) (d : Dialect) (hd : plainConn d) (c : Caps) (decl : Decl) (c0 : Val) (w : Cat)
+theorem constraints_none (d : Dialect) (hd : d = .firebird ∨ d = .maxdb) (decl : Decl) : constraints TX d decl = [] := by
+  have h : ∀ col, alterFk TX d decl col = none := by
+    intro col
+    obtain ⟨name, dbn, kind, nn, uq, alt, ds⟩ := col
+    rcases hd with rfl | rfl <;> cases kind <;> rfl
+  simp [constraints, h]
+
+/-- `conn.createTable(soClass)` of the classes on `DBAPI.createTable`: the CREATE TABLE statement; returns the
+    constraint statements -/
+theorem connCreateTable_plain (n : Nat) (d : Dialect) (hd : plainConn d) (c : Caps) (decl : Decl) (c0 : Val) (w : Cat)
     (text : Str) (ht : createTableSQL TX d c decl = some text) (hb : 32 ∉ decl.tableName) :
     callNW prog ddlI EX (n + 10) w (.meth (connCls d) M_createTable) [connV d c, soClassV decl c0 x] =
       createRes decl.tableName (strList (constraints TX d decl)) w := by
@@ -35,29 +43,99 @@ theorem connCreateTable (n : Nat) (d : Dialect) (hd : plainConn d) (c : Caps) (d
     pyw [DBAPI__createTable_fn, DBAPI__createTable, DBAPI__createTable_s0, DBAPI__createTable_s1, DBAPI__createTable_s2,
       createRes, unpackOf, bindAll]
 
+theorem exec_generator (t : Str) (w : Cat) :
+    execSQL ([67, 82, 69, 65, 84, 69, 32, 71, 69, 78, 69, 82, 65, 84, 79, 82, 32, 71, 69, 78, 95] ++ t) w = .ok w := by
+  simp [execSQL, strip, pCT, pDT, pCI, pCUI]
+
+theorem exec_sequence (t : Str) (w : Cat) :
+    execSQL ([67, 82, 69, 65, 84, 69, 32, 83, 69, 81, 85, 69, 78, 67, 69, 32] ++ t) w = .ok w := by
+  simp [execSQL, strip, pCT, pDT, pCI, pCUI]
+
+/-- Firebird / MaxDB `createTable`: CREATE TABLE, then the generator / sequence statement (no catalogue effect) -/
+theorem connCreateTable_seq (n : Nat) (d : Dialect) (hd : d = .firebird ∨ d = .maxdb) (c : Caps) (decl : Decl) (c0 : Val)
+    (w : Cat) (text : Str) (ht : createTableSQL TX d c decl = some text) (hb : 32 ∉ decl.tableName) :
+    callNW prog ddlI EX (n + 10) w (.meth (connCls d) M_createTable) [connV d c, soClassV decl c0 x] =
+      createRes decl.tableName (strList (constraints TX d decl)) w := by
+  rw [constraints_none d hd decl]
+  have hcols := createColumns_agrees (x := x) (n + 1) d c decl c0
+  rw [createTableSQL_eq_colsModel] at ht
+  cases hm0 : colsModel d c decl with
+  | none => rw [hm0] at ht; cases ht
+  | some b =>
+    rw [hm0] at ht hcols
+    simp only [agrees] at hcols
+    injection ht with ht
+    have he := exec_create decl.tableName (40 :: 10 :: (b ++ [10, 41])) w hb
+    have hg := exec_generator decl.tableName
+    have hq := exec_sequence (decl.tableName.take 28 ++ [95, 83, 69, 81])
+    simp only [pCT, List.cons_append, List.nil_append, List.append_assoc] at he hg hq
+    clear ht
+    by_cases hm : decl.tableName ∈ w.tables
+    · rw [if_pos hm] at he
+      rcases hd with rfl | rfl
+      · rw [callXW_succ _ _ _ _ _ (by rfl)]
+        pyw [FirebirdConnection__createTable_fn, FirebirdConnection__createTable, FirebirdConnection__createTable_s0,
+          FirebirdConnection__createTable_s1, FirebirdConnection__createTable_s2, createRes, metaV, strList]
+      · rw [callXW_succ _ _ _ _ _ (by rfl)]
+        pyw [MaxdbConnection__createTable_fn, MaxdbConnection__createTable, MaxdbConnection__createTable_s0,
+          MaxdbConnection__createTable_s1, MaxdbConnection__createTable_s2, createRes, metaV, strList]
+    · rw [if_neg hm] at he
+      rcases hd with rfl | rfl
+      · rw [callXW_succ _ _ _ _ _ (by rfl)]
+        pyw [FirebirdConnection__createTable_fn, FirebirdConnection__createTable, FirebirdConnection__createTable_s0,
+          FirebirdConnection__createTable_s1, FirebirdConnection__createTable_s2, createRes, metaV, strList]
+      · rw [callXW_succ _ _ _ _ _ (by rfl)]
+        pyw [MaxdbConnection__createTable_fn, MaxdbConnection__createTable, MaxdbConnection__createTable_s0,
+          MaxdbConnection__createTable_s1, MaxdbConnection__createTable_s2, createRes, metaV, strList, extMethX]
+
+/-- `conn.createTable(soClass)` of all seven connection classes -/
+theorem connCreateTable (n : Nat) (d : Dialect) (c : Caps) (decl : Decl) (c0 : Val) (w : Cat)
+    (text : Str) (ht : createTableSQL TX d c decl = some text) (hb : 32 ∉ decl.tableName) :
+    callNW prog ddlI EX (n + 10) w (.meth (connCls d) M_createTable) [connV d c, soClassV decl c0 x] =
+      createRes decl.tableName (strList (constraints TX d decl)) w := by
+  by_cases h1 : d = .firebird
+  · exact connCreateTable_seq n d (Or.inl h1) c decl c0 w text ht hb
+  by_cases h2 : d = .maxdb
+  · exact connCreateTable_seq n d (Or.inr h2) c decl c0 w text ht hb
+  exact connCreateTable_plain n d ⟨h1, h2⟩ c decl c0 w text ht hb
+
 def dropTableFn : Dialect → Fn
   | .postgres => PostgresConnection__dropTable_fn
+  | .firebird => FirebirdConnection__dropTable_fn
+  | .maxdb => MaxdbConnection__dropTable_fn
   | _ => DBAPI__dropTable_fn
 
-/-- `conn.dropTable(table, cascade)`: one `DROP TABLE` statement (`… CASCADE` on PostgreSQL when asked) -/
-theorem connDropTable (n : Nat) (d : Dialect) (hd : plainConn d) (c : Caps) (t : Name) (cas : Bool) (w : Cat)
-    (hb : 32 ∉ t) :
+theorem exec_drop_other (k : Nat) (hk : k ≠ 84) (rest : Str) (w : Cat) :
+    execSQL (68 :: 82 :: 79 :: 80 :: 32 :: k :: rest) w = .ok w := by
+  have hk' : ¬ (84 = k) := fun e => hk e.symm
+  simp [execSQL, strip, pCT, pDT, pCI, pCUI, hk']
+
+/-- `conn.dropTable(table, cascade)` of all seven connection classes: one `DROP TABLE` statement (`… CASCADE` on
+    PostgreSQL when asked), followed on Firebird / MaxDB by the generator / sequence statement (no catalogue effect) -/
+theorem connDropTable (n : Nat) (d : Dialect) (c : Caps) (t : Name) (cas : Bool) (w : Cat) (hb : 32 ∉ t) :
     callNW prog ddlI EX (n + 1) w (.meth (connCls d) M_dropTable) [connV d c, .str t, .bool cas] = dropRes t w := by
-  have hr : prog.resolve (.meth (connCls d) M_dropTable) = some (dropTableFn d) := by
-    cases d <;> first | rfl | exact absurd rfl hd.1 | exact absurd rfl hd.2
+  have hr : prog.resolve (.meth (connCls d) M_dropTable) = some (dropTableFn d) := by cases d <;> rfl
   rw [callXW_succ _ _ _ _ _ hr]
   have he := exec_drop t w hb
   have he' := fun rest => exec_drop' t rest w hb
+  have hg := fun rest w => exec_drop_other 71 (by decide) rest w
+  have hq := fun rest w => exec_drop_other 83 (by decide) rest w
   simp only [pDT, List.cons_append, List.nil_append] at he he'
   by_cases hm : t ∈ w.tables
   · simp only [if_pos hm] at he he'
     cases d <;> cases cas <;>
       pyw [dropTableFn, DBAPI__dropTable_fn, DBAPI__dropTable, DBAPI__dropTable_s0, PostgresConnection__dropTable_fn,
-        PostgresConnection__dropTable, PostgresConnection__dropTable_s0, dropRes]
+        PostgresConnection__dropTable, PostgresConnection__dropTable_s0, FirebirdConnection__dropTable_fn,
+        FirebirdConnection__dropTable, FirebirdConnection__dropTable_s0, FirebirdConnection__dropTable_s1,
+        MaxdbConnection__dropTable_fn, MaxdbConnection__dropTable, MaxdbConnection__dropTable_s0,
+        MaxdbConnection__dropTable_s1, extMethX, dropRes]
   · simp only [if_neg hm] at he he'
     cases d <;> cases cas <;>
       pyw [dropTableFn, DBAPI__dropTable_fn, DBAPI__dropTable, DBAPI__dropTable_s0, PostgresConnection__dropTable_fn,
-        PostgresConnection__dropTable, PostgresConnection__dropTable_s0, dropRes]
+        PostgresConnection__dropTable, PostgresConnection__dropTable_s0, FirebirdConnection__dropTable_fn,
+        FirebirdConnection__dropTable, FirebirdConnection__dropTable_s0, FirebirdConnection__dropTable_s1,
+        MaxdbConnection__dropTable_fn, MaxdbConnection__dropTable, MaxdbConnection__dropTable_s0,
+        MaxdbConnection__dropTable_s1, extMethX, dropRes]
 
 @[simp] theorem read_cls_tableExists (w : Cat) (decl : Decl) (c0 : Val) (d : Dialect) (c : Caps) :
     EX.read w (soClassV decl c0 x) "tableExists" [connV d c] =
@@ -70,6 +148,13 @@ theorem agreesW_ok {r : R Val × Cat} {w' : Cat} (h : agreesW r (.ok w')) : ∃ 
 theorem agreesW_error {r : R Val × Cat} {e : Unit} (h : agreesW r (.error e)) : ∃ w', r = (.exc .operationalError, w') :=
   ⟨r.2, Prod.ext h rfl⟩
 
+/-- a successful translated run determines the model's verdict -/
+theorem agreesW_ok_inv {r : R Val × Cat} {m : Except Unit Cat} {v : Val} {w1 : Cat} (h : agreesW r m)
+    (hr : r = (.ok v, w1)) : m = .ok w1 := by
+  cases m with
+  | ok w' => obtain ⟨h2, _⟩ := h; rw [hr] at h2; rw [← h2]
+  | error e => simp only [agreesW] at h; rw [hr] at h; cases h
+
 macro "dropeval" : tactic =>
   `(tactic| pyw [SQLObject__dropTable_fn, SQLObject__dropTable, SQLObject__dropTable_s0, SQLObject__dropTable_s1,
       SQLObject__dropTable_s2, SQLObject__dropTable_s3, SQLObject__dropTable_s4, SQLObject__dropTable_s5,
@@ -79,7 +164,7 @@ macro "dropeval" : tactic =>
 set_option maxHeartbeats 1000000 in
 /-- **`SQLObject.dropTable(ifExists, dropJoinTables, cascade, connection)` translated = `dropTableG`** of the
     catalogue model with the flags read from the source (`dropPassesIfExists`, `dropDedupes`) -/
-theorem dropTable_eq (n : Nat) (d : Dialect) (hd : plainConn d) (c : Caps) (decl : Decl) (c0 : Val)
+theorem dropTable_eq (n : Nat) (d : Dialect) (c : Caps) (decl : Decl) (c0 : Val)
     (ie dj cas : Bool) (w : Cat) (idx : List Name)
     (hb : 32 ∉ decl.tableName) (hbl : ∀ j ∈ joinsToCreateX x.joins, 32 ∉ j.join.table) :
     agreesW (callNW prog ddlI EX (n + 3) w (.meth C_SQLObject M_dropTable)
@@ -88,7 +173,7 @@ theorem dropTable_eq (n : Nat) (d : Dialect) (hd : plainConn d) (c : Caps) (decl
         ⟨decl.tableName, linkNames x.joins, idx⟩ w) := by
   rw [callXW_succ _ _ _ _ _ res_SQLObject_dropTable]
   have hcd : callNW prog ddlI EX (n + 2) w (.meth (connCls d) M_dropTable) [connV d c, .str decl.tableName, .bool cas] =
-      dropRes decl.tableName w := connDropTable (n + 1) d hd c decl.tableName cas w hb
+      dropRes decl.tableName w := connDropTable (n + 1) d c decl.tableName cas w hb
   have hr : recvCls (soClassV decl c0 x) = .ok C_SQLObject := rfl
   by_cases hm : decl.tableName ∈ w.tables
   · cases dj
